@@ -49,7 +49,7 @@ COMPONENTS = {
     "real": ["ExternalOptimizer.start/_handle_request", "_PluginOptimizer.run/_request/_callback", "_JSONPipeCommunicator", "EnsembleOptimizer", "SciPy plug-in + scipy.optimize in the child (45%)", "config dump -> JSON -> re-validation"],
     "stub": ["SimKernel (FIFOs, selector, process table, signals, clock, scheduler)", "sim/scripted optimizer in the child (55%)", "SimEvaluator"],
 }
-PROBES = ["evaluator_interrupts", "numpy_scalar_option", "config_with_path_field", "explicit_start_point", "delimiter_straddles_boundary", "kill_right_after_message", "evaluator_raised_with_dead_child", "equality_compared", "kill_child", "kill_while_parent_evaluating", "child_raises", "child_exits_nonzero", "evaluator_raises",
+PROBES = ["evaluator_interrupts", "numpy_array_option", "numpy_scalar_option", "config_with_path_field", "explicit_start_point", "delimiter_straddles_boundary", "kill_right_after_message", "evaluator_raised_with_dead_child", "equality_compared", "kill_child", "kill_while_parent_evaluating", "child_raises", "child_exits_nonzero", "evaluator_raises",
           "evaluator_aborts", "max_functions", "stall", "spawn_fails", "small_pipe", "short_write", "large_message_runs",
           "messages_exchanged", "child_dead_checked", "real_scipy_child", "simulated_seconds"]
 REAL = ["slsqp", "l-bfgs-b", "cobyla", "nelder-mead", "differential_evolution"]
@@ -118,6 +118,17 @@ def _group_scenario(gseed: int, large: bool) -> dict:
         if backend == "scripted":
             cfg["optimizer"]["options"]["script"][0]["pts"][0] = -1
         scn["explicit_start"] = True
+    if backend == "scripted" and rng.random() < 0.15:
+        # an option whose value is a NumPy array (TNC's scale, Nelder-Mead's initial_simplex, ...): type and shape have
+        # to survive the way into the optimizer process
+        dtype, shape = rng.choice([("float64", [3]), ("float64", [2, 2]), ("float32", [2]), ("float64", [0, 3]), ("int64", [2])])
+        n = 1
+        for d in shape:
+            n *= d
+        cfg["optimizer"]["options"]["array_option"] = {"__np__": "array", "dtype": dtype, "shape": shape,
+                                                       "value": [float(i + 1) if dtype.startswith("float") else i + 1 for i in range(n)]}
+        cfg["optimizer"]["options"]["array_option_meta"] = {"dtype": dtype, "shape": shape}
+        scn["numpy_array_option"] = True
     if backend == "scripted" and rng.random() < 0.2:
         # a configuration field that is not a JSON type (a path); the directory is never written to by these runs
         cfg["optimizer"]["output_dir"] = "/tmp/ropt-sim-output"
@@ -391,6 +402,8 @@ def execute(scn: dict) -> dict:
                 probe("config_with_path_field")
             if scn.get("numpy_scalar_option"):
                 probe("numpy_scalar_option")
+            if scn.get("numpy_array_option"):
+                probe("numpy_array_option")
             differs = da != db
             if differs and backend != "scripted" and ctx is not None:
                 # SciPy's algorithms are not bit-reproducible between two call contexts (BLAS results depend on
